@@ -37,7 +37,7 @@ Proof. apply plist_spelled. Qed.
 
 (* ---- the wrapper ---- *)
 Lemma class_by_kind t : kind_class (t_kind t) <> CConst CkInt -> tok_class t = kind_class (t_kind t).
-Proof. unfold tok_class. destruct (kind_class (t_kind t)) as [| |k| | | | | | | | | | | |o| | |k| | | |]; try reflexivity. destruct k; try reflexivity. intro H. contradiction H. reflexivity. Qed.
+Proof. unfold tok_class. destruct (kind_class (t_kind t)) as [| |k| | | | | | | | | | | |o| | |k| | | |dk| |]; try reflexivity. destruct k; try reflexivity. intro H. contradiction H. reflexivity. Qed.
 
 Lemma class_fb t : t_kind t = KFunctionBlock -> tok_class t = COther.
 Proof. intro H. rewrite class_by_kind; rewrite H; [reflexivity | discriminate]. Qed.
